@@ -14,7 +14,7 @@
 Require Import Arith List Bool QArith Qcanon.
 From TK Require Import Mat_Sums Mat_Core Mat_Qc Mat_EigSelect Spectral_KyFan Pencil_Model Pencil_Spec
      Pencil_Proof_Sums Pencil_Proof Pencil_Proof_Rot Pencil_Proof_KyFan Pencil_Proof_Qc
-     EigSelect Pencil_Proof_Tie Pencil_Proof_Unique Pencil_Proof_Embed Pencil_Proof_Scale.
+     EigSelect Pencil_Proof_Tie Pencil_Proof_Unique Pencil_Proof_Embed Pencil_Proof_Scale Pencil_Proof_Front.
 Import ListNotations.
 Local Open Scope F_scope.
 
@@ -565,3 +565,41 @@ Example full_spec_nonvacuous :
   exists lhs rhs, run_construct VF42 LPP 2 2 [[qz 1; qz 1]; [qz 0; qz 1]] wW [qz 1; qz 1] = Ok (lhs, rhs) /\
                   spec_full_b LPP 2 2 [[qz 1; qz 1]; [qz 0; qz 1]] wW [qz 1; qz 1] lhs rhs = true.
 Proof. exact e_run_full. Qed.
+
+(* ---------- 9. (Wave 2) the dispatch of generalized_eigendecomposition as the methods call it ---------- *)
+(* embed_front em cs es := refuse (unsupported_method_error) unless eigen_method = Dense, computation strategy =
+   HomogeneousCPU, eigendecomposition strategy = SmallestEigenvalues; then the dense branch (embed_body) *)
+Theorem front_end_answers_only_through_the_dense_branch :
+  forall (F : Type) (Fo : FieldOps F) em cs es oracle (p : pencil F) D d N (X : mat F) r,
+    embed_front em cs es oracle p D d N X = Answer r <->
+    em = EMDense /\ cs = CSHomogeneousCPU /\ es = ESSmallest /\ embed_body oracle p D d N X = r.
+Proof. exact (@embed_front_answers). Qed.
+Print Assumptions front_end_answers_only_through_the_dense_branch.
+
+Theorem front_end_refuses_everything_else :
+  forall (F : Type) (Fo : FieldOps F) em cs es oracle (p : pencil F) D d N (X : mat F),
+    (em <> EMDense \/ cs <> CSHomogeneousCPU \/ es <> ESSmallest) ->
+    exists site, embed_front em cs es oracle p D d N X = Refused site.
+Proof. exact (@embed_front_refuses). Qed.
+Print Assumptions front_end_refuses_everything_else.
+
+Theorem front_end_answer_is_the_solution :
+  forall (F : Type) (Fo : FieldOps F) (Ff : IsField F) (Fle : OrderedField F)
+         em cs es D d N (X A B : mat F) (p : pencil F) oracle V lam r,
+    solver_sees D A B p -> (d <= D)%nat -> oracle (seen p) = (V, lam) ->
+    full_contract D (p_lhs (seen p)) (p_rhs (seen p)) V lam -> ascending D lam ->
+    embed_front em cs es oracle p D d N X = Answer r ->
+    exists e, r = Ok e /\ embed_correct D d N X A B e.
+Proof. exact (@embed_front_correct). Qed.
+Print Assumptions front_end_answer_is_the_solution.
+
+Example front_end_nonvacuous :
+  (exists r, embed_front EMDense CSHomogeneousCPU ESSmallest (fun _ : pencil Qc => (eV, elam))
+                         (npe_repaired eX 2 eW) 2 1 2 eX = Answer r) /\
+  (@EMRandomized <> EMDense \/ CSHomogeneousCPU <> CSHomogeneousCPU \/ ESSmallest <> ESSmallest).
+Proof.
+  exact (conj (ex_intro _ _ eq_refl)
+              (or_introl (fun H : EMRandomized = EMDense =>
+                            eq_ind EMRandomized (fun m => match m with EMRandomized => True | EMDense => False end) I
+                                   EMDense H))).
+Qed.
